@@ -579,6 +579,31 @@ def path_value(p, node, env=None, upto=None):
     return nfs(e, env or FEnv())
 
 
+def return_rows(fnode, env=None):
+    """decision rows [(condition pairs, outcome normal form)] of a function: one row per returning path, a conditional
+    expression in a return split into its two rows -- `return a if c else b` and `if c: return a` / `return b` give the same rows"""
+    from . import paths as _paths
+    out = []
+
+    def emit(conds, e):
+        if isinstance(e, ast.IfExp):
+            emit(conds + list(outcome_ast(e.test, True, env)), e.body)
+            emit(conds + list(outcome_ast(e.test, False, env)), e.orelse)
+        else:
+            out.append((conds, nfs(e, env) if e is not None else 'None'))
+    for c, r, p in _paths.returns_with_conds(fnode):
+        f = Facts(CP(cond_str(t, env), pol) for t, pol in c)
+        if f.contradiction:
+            continue
+        emit([CP(cond_str(t, env), pol) for t, pol in c], r)
+    return out
+
+
+def outcome_ast(test, pol, env=None):
+    from .paths import _outcome
+    return tuple(CP(cond_str(t, env), p) for _, t, p in _outcome(test, pol))
+
+
 def neg(cp):
     """the opposite outcome of a (condition, polarity) pair"""
     return CP(cp[0], not cp[1])
